@@ -1,7 +1,7 @@
 (* The hand-written varint length header of complex_types.rs (Types/KeyTypes.v, used by C15) is equal to
    the function generated from encode_varint_len (Gen/Fns.v): what the code appends to `output`. *)
 From Coq Require Import List NArith Bool Lia.
-From RV Require Import Base.Bytes Gen.FnsLib Gen.FnsLibP Gen.Fns Types.KeyTypes.
+From RV Require Import Base.Bytes Gen.Consts Gen.FnsLib Gen.FnsLibP Gen.FnsLibB Gen.FnsLibBP Gen.Fns Types.KeyTypes.
 Import ListNotations.
 Open Scope N_scope.
 
@@ -23,3 +23,71 @@ Proof. tie encode_varint_len_guard_u32.
     + apply N.leb_le in B. lia.
     + exact H.
 Qed.
+
+(* ---------------------------------------------------------------- wave 2 *)
+(* decode_varint_len: the model returns (length, rest of the data), the code (length, bytes consumed) *)
+Lemma decode_varint_len_is_model : forall d, all_bytes d = true ->
+  KeyTypes.decode_varint_len d =
+  if decode_varint_len_guard d
+  then Some (fst (Fns.decode_varint_len d), slice_from d (snd (Fns.decode_varint_len d)))
+  else None.
+Proof. tie decode_varint_len_is_model.
+  intros [|b r] Hb; [reflexivity|].
+  cbn [all_bytes forallb] in Hb. apply andb_prop in Hb as [Hb _]. unfold is_byte in Hb. apply N.ltb_lt in Hb.
+  unfold KeyTypes.decode_varint_len, decode_varint_len_guard, Fns.decode_varint_len.
+  change (byte_at (b :: r) 0) with b. rewrite slen_cons.
+  replace (0 <? N.succ (slen r)) with true by (symmetry; apply N.ltb_lt; lia). cbn [andb].
+  replace (0 <=? b) with true by (symmetry; apply N.leb_le; lia). cbn [andb].
+  rewrite N.ltb_antisym. destruct (b <=? 253) eqn:A.
+  - replace (254 <=? b) with false by (apply N.leb_le in A; symmetry; apply N.leb_gt; lia). reflexivity.
+  - replace (254 <=? b) with true by (apply N.leb_gt in A; symmetry; apply N.leb_le; lia). cbn [negb].
+    destruct (b =? 254) eqn:B.
+    + change (slice (b :: r) 1 3) with (firstn 2 r). change (slice_from (b :: r) 3) with (skipn 2 r).
+      unfold slen. rewrite firstn_length.
+      destruct (Nat.leb 2 (length r)) eqn:L.
+      * apply Nat.leb_le in L. replace (3 <=? N.succ (N.of_nat (length r))) with true by (symmetry; apply N.leb_le; lia).
+        replace (N.of_nat (Nat.min 2 (length r)) =? 2) with true by (symmetry; apply N.eqb_eq; lia). reflexivity.
+      * apply Nat.leb_gt in L. replace (3 <=? N.succ (N.of_nat (length r))) with false by (symmetry; apply N.leb_gt; lia).
+        reflexivity.
+    + change (slice (b :: r) 1 5) with (firstn 4 r). change (slice_from (b :: r) 5) with (skipn 4 r).
+      unfold slen. rewrite firstn_length.
+      destruct (Nat.leb 4 (length r)) eqn:L.
+      * apply Nat.leb_le in L. replace (5 <=? N.succ (N.of_nat (length r))) with true by (symmetry; apply N.leb_le; lia).
+        replace (N.of_nat (Nat.min 4 (length r)) =? 4) with true by (symmetry; apply N.eqb_eq; lia). reflexivity.
+      * apply Nat.leb_gt in L. replace (5 <=? N.succ (N.of_nat (length r))) with false by (symmetry; apply N.leb_gt; lia).
+        reflexivity.
+Qed.
+
+(* little-endian unsigned integer keys (instances of the le_value! / le_impl! macros of types.rs) *)
+Lemma le_uint_compare_is_model : forall w a b,
+  kcompare (TU w) a b = le_u64_compare a b /\ kcompare (TU w) a b = le_u32_compare a b
+  /\ kcompare (TU w) a b = le_u128_compare a b.
+Proof. tie le_uint_compare_is_model. intros; repeat split. Qed.
+
+Lemma le_uint_from_bytes_is_model : forall d,
+  decode (TU 8) d = (if le_u64_from_bytes_guard d then Some (VU (le_u64_from_bytes d)) else None)
+  /\ decode (TU 4) d = (if le_u32_from_bytes_guard d then Some (VU (le_u32_from_bytes d)) else None)
+  /\ decode (TU 16) d = (if le_u128_from_bytes_guard d then Some (VU (le_u128_from_bytes d)) else None).
+Proof. tie le_uint_from_bytes_is_model.
+  intros d. unfold le_u64_from_bytes_guard, le_u32_from_bytes_guard, le_u128_from_bytes_guard, slen. cbn [decode andb].
+  repeat split.
+  - destruct (Nat.eqb (length d) 8) eqn:E.
+    + apply Nat.eqb_eq in E. rewrite E. reflexivity.
+    + apply Nat.eqb_neq in E. replace (N.of_nat (length d) =? 8) with false by (symmetry; apply N.eqb_neq; lia). reflexivity.
+  - destruct (Nat.eqb (length d) 4) eqn:E.
+    + apply Nat.eqb_eq in E. rewrite E. reflexivity.
+    + apply Nat.eqb_neq in E. replace (N.of_nat (length d) =? 4) with false by (symmetry; apply N.eqb_neq; lia). reflexivity.
+  - destruct (Nat.eqb (length d) 16) eqn:E.
+    + apply Nat.eqb_eq in E. rewrite E. reflexivity.
+    + apply Nat.eqb_neq in E. replace (N.of_nat (length d) =? 16) with false by (symmetry; apply N.eqb_neq; lia). reflexivity.
+Qed.
+
+(* the classification byte of a TypeName: the constants of Gen/Consts.v, and from_byte inverts to_byte *)
+Lemma type_classification_is_model :
+  TypeClassification_to_byte TypeClassification_Internal = TYPE_CLASS_INTERNAL
+  /\ TypeClassification_to_byte TypeClassification_UserDefined = TYPE_CLASS_USER
+  /\ TypeClassification_to_byte TypeClassification_Internal2 = TYPE_CLASS_INTERNAL2
+  /\ TypeClassification_to_byte TypeClassification_Internal3 = TYPE_CLASS_INTERNAL3
+  /\ (forall c, TypeClassification_from_byte (TypeClassification_to_byte c) = c
+              /\ TypeClassification_from_byte_guard (TypeClassification_to_byte c) = true).
+Proof. tie type_classification_is_model. repeat split; destruct c; reflexivity. Qed.
